@@ -639,8 +639,6 @@ class Client:
         ret: List[str] = []
         active_script: str = None
         for l in listing.splitlines():
-            if self.__size_expr.match(l):
-                continue
             m = re.match(rb'"([^"]+)"\s*(.+)', l)
             if m is None:
                 ret += [l.strip(b'"').decode("utf-8")]
@@ -669,8 +667,6 @@ class Client:
         )
         if code == "OK":
             lines = content.splitlines()
-            if self.__size_expr.match(lines[0]) is not None:
-                lines = lines[1:]
             return "\n".join([line.decode("utf-8") for line in lines])
         return None
 
